@@ -80,7 +80,7 @@ Definition clear (now : Z) (s : state) : state :=
   {| q := []; hist := hist s ++ [HClear now (length (q s))]; next := next s |}.
 
 (* ---- one pass of the loop body of Timer<T>::operator()() -------------------------------- *)
-Inductive outcome := Slept | Dropped | Fired.
+Inductive outcome := Slept | Dropped | Fired (cb : Z).
 
 Definition iter (res : Z -> nat -> bool) (k : nat) (now : Z) (s : state) : state * outcome :=
   match top k (q s) with
@@ -96,7 +96,7 @@ Definition iter (res : Z -> nat -> bool) (k : nat) (now : Z) (s : state) : state
                                    e_due := now + e_ival op * MILLION;   (* op._t = now + _intervalMS * million *)
                                    e_ival := e_ival op; e_rep := e_rep op |}]
                   else rest in
-        ({| q := q'; hist := hist s ++ [HFire (e_id op) (e_cb op) now r]; next := next s |}, Fired)
+        ({| q := q'; hist := hist s ++ [HFire (e_id op) (e_cb op) now r]; next := next s |}, Fired (e_cb op))
       else                                         (* else shouldsleep = true *)
         ({| q := q s; hist := hist s ++ [HQuiet now]; next := next s |}, Slept)
   end.
@@ -123,7 +123,10 @@ Definition op_wf (o : Z * op) : bool :=
 
 (* ---- the executions driven by the correspondence harness --------------------------------
    The harness performs one action, then lets the timer thread run until it is seen asleep
-   with nothing due (the clock does not move meanwhile): [drain].  The tie-breaking oracle is
+   with nothing due: [drain].  The clock moves meanwhile only through the callbacks: the harness's
+   callback number cb advances the (virtual) clock by [dur cb] while it runs ("slow callback"), and
+   the loop reads the clock afresh in every pass (const Tickval now(Tickval::get_tickval()) inside
+   the loop body), so the next pass of the same wake-up sees the later time.  The tie-breaking oracle is
    steered by [pref], the order in which the implementation was seen to run the callbacks:
    among the elements of minimal _t the one whose callback is next in [pref] is the top. *)
 Fixpoint cand_index (want : Z) (m : Z) (l : list ev) : option nat :=
@@ -142,29 +145,29 @@ Definition choose (pref : list Z) (l : list ev) : nat :=
   | _, _ => O
   end.
 
-Fixpoint drain (res : Z -> nat -> bool) (fuel : nat) (now : Z) (pref : list Z) (s : state)
-  : state * list Z * bool :=
+Fixpoint drain (res : Z -> nat -> bool) (dur : Z -> Z) (fuel : nat) (now : Z) (pref : list Z) (s : state)
+  : state * Z * list Z * bool :=
   match fuel with
-  | O => (s, pref, false)                 (* out of fuel: excluded by TimerProofs.drain_fuel_enough *)
+  | O => (s, now, pref, false)            (* out of fuel: excluded by TimerProofs.drain_fuel_enough when dur = 0 *)
   | S f =>
       match iter res (choose pref (q s)) now s with
-      | (s', Slept) => (s', pref, true)
-      | (s', Dropped) => drain res f now pref s'
-      | (s', Fired) => drain res f now (tl pref) s'
+      | (s', Slept) => (s', now, pref, true)
+      | (s', Dropped) => drain res dur f now pref s'
+      | (s', Fired cb) => drain res dur f (now + dur cb) (tl pref) s'
       end
   end.
 
 (* like [drain], but stops as soon as [nf] callbacks have run *)
-Fixpoint drainf (res : Z -> nat -> bool) (fuel : nat) (nf : nat) (now : Z) (pref : list Z) (s : state)
-  : state * list Z :=
+Fixpoint drainf (res : Z -> nat -> bool) (dur : Z -> Z) (fuel : nat) (nf : nat) (now : Z) (pref : list Z) (s : state)
+  : state * Z * list Z :=
   match nf, fuel with
-  | O, _ => (s, pref)
-  | _, O => (s, pref)
+  | O, _ => (s, now, pref)
+  | _, O => (s, now, pref)
   | S nf', S f =>
       match iter res (choose pref (q s)) now s with
-      | (s', Slept) => (s', pref)
-      | (s', Dropped) => drainf res f nf now pref s'
-      | (s', Fired) => drainf res f nf' now (tl pref) s'
+      | (s', Slept) => (s', now, pref)
+      | (s', Dropped) => drainf res dur f nf now pref s'
+      | (s', Fired cb) => drainf res dur f nf' (now + dur cb) (tl pref) s'
       end
   end.
 
@@ -175,7 +178,7 @@ Fixpoint drainf (res : Z -> nat -> bool) (fuel : nat) (nf : nat) (now : Z) (pref
 Inductive sop := SSched (rep : bool) (ms : Z) | SAdv (dns : Z) | SClear | SPark (dns : Z) (nf : nat).
 
 (* the k-th schedule call of a script uses callback number k *)
-Definition sstep (res : Z -> nat -> bool) (c : state * Z * list Z * bool) (o : sop)
+Definition sstep (res : Z -> nat -> bool) (dur : Z -> Z) (extra : nat) (c : state * Z * list Z * bool) (o : sop)
   : state * Z * list Z * bool :=
   match c with
   | (s, now, pref, okf) =>
@@ -184,14 +187,15 @@ Definition sstep (res : Z -> nat -> bool) (c : state * Z * list Z * bool) (o : s
         | SSched rep ms => (schedule now (Z.of_nat (next s)) rep ms s, now, pref)
         | SAdv d => (s, now + d, pref)
         | SClear => (clear now s, now, pref)
-        | SPark d nf => let '(s', pref') := drainf res (S (length (q s))) nf (now + d) pref s in
-                        (clear (now + d) s', now + d, pref')
+        | SPark d nf => let '(s', now', pref') := drainf res dur (S (length (q s)) + extra) nf (now + d) pref s in
+                        (clear now' s', now', pref')
         end in
-      match drain res (S (length (q s1))) now1 pref1 s1 with
-      | (s2, pref2, fin) => (s2, now1, pref2, okf && fin)
+      match drain res dur (S (length (q s1)) + extra) now1 pref1 s1 with
+      | (s2, now2, pref2, fin) => (s2, now2, pref2, okf && fin)
       end
   end.
 
-Definition run_script (res : Z -> nat -> bool) (t0 : Z) (pref : list Z) (sc : list sop)
+(* [extra]: additional fuel for wake-ups in which slow callbacks make re-armed events due again *)
+Definition run_script (res : Z -> nat -> bool) (dur : Z -> Z) (extra : nat) (t0 : Z) (pref : list Z) (sc : list sop)
   : state * Z * list Z * bool :=
-  fold_left (sstep res) sc (init, t0, pref, true).
+  fold_left (sstep res dur extra) sc (init, t0, pref, true).
